@@ -60,6 +60,10 @@ def check_layout():
             fname, ftype = cls._fields_[i][0], cls._fields_[i][1]
             fd = getattr(cls, fname)
             need(fd.offset == off.value and fd.size == size.value, "%s.%s (field %d) at offset %d size %d, C member %s.%s at offset %d size %d" % (cls.__name__, fname, i, fd.offset, fd.size, cname, name.value.decode(), off.value, size.value))
+            # same member under the same name (the bindings read C members by position: a renamed or swapped pair of members of
+            # equal type is invisible to offsets and sizes); the only spelling difference in the package is DVECTLIST.dvector for d
+            alias = {("dvectorlist", "dvector"): "d"}
+            need(alias.get((cname, fname), fname) == name.value.decode(), "%s field %d is called %s in the Python declaration, the C structure %s has %s at that position" % (cls.__name__, i, fname, cname, name.value.decode()))
             pd, pb = pykind(ftype)
             need(pd == depth.value and pb == base.value.decode(), "%s.%s declared as %s%s, C member %s.%s is %s%s" % (cls.__name__, fname, pb, "*" * pd, cname, name.value.decode(), base.value.decode(), "*" * depth.value))
             i += 1; nfields += 1
